@@ -468,6 +468,94 @@ fn multisets(n: usize, f: &mut dyn FnMut(&[u8])) {
     rec(&mut Vec::with_capacity(n), n, 0, f);
 }
 
+/// Maintenance racing with a deleter or another maintainer: a pass may be planned on a listing that
+/// is already stale, but it never evicts more entries than (entries it managed to stat) - capacity,
+/// and never anything when that is not positive.
+fn concurrent_programs() -> Vec<(crate::sched::Program, crate::props::e1::Mode, usize)> {
+    use crate::ops::Op;
+    use crate::props::e1::{self, api, planted, Mode};
+    use crate::sched::POp;
+    use crate::world::{Size, Val};
+    let m = crate::ops::key_for_shards("m", 0, 1, 2);
+    let j = e1::key2();
+    let mut out = Vec::new();
+    for (front, mkcfg) in [("plain", e1::plain_cfg as fn(usize) -> crate::ops::StackCfg), ("sharded", e1::sharded_cfg as fn(usize) -> crate::ops::StackCfg)] {
+        let sd = crate::ops::shard_dir_name(0);
+        let loc = |n: &str| if front == "sharded" { format!("{}/{}", sd, n) } else { n.to_string() };
+        for (cap, npre) in [(4usize, 5usize), (2, 4), (3, 3)] {
+            let pre: Vec<crate::sched::Planted> = (0..npre)
+                .map(|i| planted(&loc(&format!("x{}", i)), Val::new(10 + i as u8, Size::One), i % 2 == 1, 20 - i as i64))
+                .collect();
+            let dircap = cap;
+            let cfgcap = if front == "sharded" { cap * 2 } else { cap };
+            let v = |t: usize| e1::wval(t, 0, Size::One);
+            let newest = loc(&format!("x{}", npre - 1));
+            let oldest = loc("x0");
+            let mut add = |name: &str, threads: Vec<Vec<POp>>| {
+                out.push((
+                    crate::sched::Program {
+                        name: format!("evict-{}-c{}n{}-{}", front, cap, npre, name),
+                        cfg: mkcfg(cfgcap),
+                        pre: pre.clone(),
+                        threads: e1::own_handles(threads, true),
+                        create_write_dir: true,
+                    },
+                    Mode::Bounded(2),
+                    dircap,
+                ));
+            };
+            add("set|deleter-newest", vec![vec![api(Op::Set(m.clone(), v(0)))], vec![POp::Unlink(newest.clone())]]);
+            add("set|deleter-oldest", vec![vec![api(Op::Set(m.clone(), v(0)))], vec![POp::Unlink(oldest.clone())]]);
+            add("set|set", vec![vec![api(Op::Set(m.clone(), v(0)))], vec![api(Op::Set(j.clone(), v(1)))]]);
+        }
+    }
+    out
+}
+
+fn concurrent_check(x: &crate::sched::Execution, capacity: usize) -> Vec<(String, String)> {
+    use crate::shim::Kind;
+    let mut bad = Vec::new();
+    let wroot = x.root.join("w").to_string_lossy().into_owned();
+    // per (thread, op): the maintenance pass = its opendir of a cache directory up to the next opendir
+    let mut i = 0;
+    while i < x.trace.len() {
+        let e = &x.trace[i];
+        let is_pass = e.kind == Kind::Opendir && e.ok() && e.path.as_ref().map(|p| p.starts_with(&wroot) && !p.ends_with(".kismet_temp")).unwrap_or(false);
+        if !is_pass {
+            i += 1;
+            continue;
+        }
+        let (tid, op, dir) = (e.tid, e.op, e.path.clone().unwrap());
+        let mut seen = 0usize;
+        let mut evicted = 0usize;
+        for f in x.trace[i + 1..].iter().filter(|f| f.tid == tid && f.op == op) {
+            if f.kind == Kind::Opendir {
+                break;
+            }
+            let in_dir = f.path.as_ref().map(|p| std::path::Path::new(p).parent().map(|d| d.to_string_lossy() == dir).unwrap_or(false)).unwrap_or(false);
+            let name = f.path.as_ref().and_then(|p| std::path::Path::new(p).file_name().map(|n| n.to_string_lossy().into_owned())).unwrap_or_default();
+            if !in_dir || name.starts_with('.') {
+                continue;
+            }
+            if f.kind == Kind::Stat && f.ok() {
+                seen += 1;
+            }
+            if f.kind == Kind::Unlink {
+                evicted += 1;
+            }
+        }
+        let allowed = seen.saturating_sub(capacity);
+        if evicted > allowed {
+            bad.push((
+                "over-eviction".into(),
+                format!("t{} op {}: a maintenance pass of capacity {} saw {} entries and tried to evict {} (at most {} needed)", tid, op, capacity, seen, evicted, allowed),
+            ));
+        }
+        i += 1;
+    }
+    bad
+}
+
 pub fn run(tier: Tier, shard: Shard, rep: &mut Report) {
     let (seq_n, multi_n) = if tier == Tier::Quick { (5, 7) } else { (8, 12) };
     rep.rule = format!(
@@ -478,7 +566,9 @@ pub fn run(tier: Tier, shard: Shard, rep: &mut Report) {
          also interrupted at each of its unlinks (EIO) and followed by a clean pass, the two together judged as one pass; (b) every \
          multiset of {}..={} files x capacity 0..=n+1 x both listing orders through prune. Oracle: classical clock queue \
          under some tie order (constructed, then brute force for n<=8), exact survivor metadata, subdirectories untouched, \
-         return value. Non-trivial = n > capacity and (a tie or a read mark present).",
+         return value. Plus, under concurrency (a maintaining writer racing with a deleter or another maintainer, all schedules with <= 2 \
+         preemptions): no pass evicts more than (entries it managed to stat) - capacity. Non-trivial = n > capacity and (a tie or \
+         a read mark present).",
         seq_n,
         seq_n + 1,
         multi_n
@@ -553,8 +643,22 @@ pub fn run(tier: Tier, shard: Shard, rep: &mut Report) {
     }
     let _ = BTreeMap::<u8, u8>::new();
     let _ = PathBuf::new();
+    run::reset_env();
+    let all = concurrent_programs();
+    let progs: Vec<(crate::sched::Program, crate::props::e1::Mode)> = all.iter().map(|p| (p.0.clone(), p.1)).collect();
+    let mut chk = |pi: usize, x: &crate::sched::Execution| concurrent_check(x, all[pi].2);
+    crate::props::e1::explore_all("C07", &progs, shard, rep, &|_| crate::sched::RunOpts::default(), &mut chk, 500_000);
 }
 
 pub fn replay(case: &Value, rep: &mut Report) {
+    if case.get("program").is_some() {
+        let all = concurrent_programs();
+        let name = case["program"].as_str().unwrap_or("").to_string();
+        let cap = all.iter().find(|p| p.0.name == name).map(|p| p.2).unwrap_or(0);
+        let progs: Vec<crate::sched::Program> = all.into_iter().map(|p| p.0).collect();
+        let mut chk = |x: &crate::sched::Execution| concurrent_check(x, cap);
+        crate::props::e1::replay_case("C07", &progs, case, rep, &|| crate::sched::RunOpts::default(), &mut chk);
+        return;
+    }
     record(&Case::from_json(case), rep);
 }
